@@ -88,6 +88,7 @@ def idna(s):
 def spec_namespace(reg):
     ns = {"implies": implies, "forall": forall, "exists": exists, "re_in": re_in, "str_to_int": int, "idna_ok": idna_ok, "idna": idna,
           "int_max_digits": lambda: __import__("sys").get_int_max_str_digits()}
+    ns.update(getattr(reg, "native_specs", {}))
     for name, (sig, body) in reg.spec_src.items():
         params = sig[sig.index("(") + 1: sig.rindex(")")]
         ns[name] = eval(f"lambda {params}: ({body})", ns)  # noqa: S307 - our own contract text
